@@ -257,7 +257,9 @@ def check(run):
     quick = run.tier == "quick"
     run.cov["rule"] = ("definition (1..6 fields: scalars bBchHiIqQP, arrays, char strings, full-width bitfields, nested structs/unions up to "
                        "depth 2, packed or not, per-field byte order) x pointer size {32,64} x random bytes; distinct by definition text; "
-                       "non-trivial when the definition has padding, nesting, a bitfield or an array")
+                       "non-trivial when the definition has padding, nesting, a bitfield or an array; plus packed definitions with "
+                       "terminated variable-length fields T*~ (T in bBhHiIqQcs, byte order by marker / order= keyword / default, "
+                       "standalone, nested single / array / two levels) x values: unpack, length, pack(unpack(b)) == b, unpack(pack(v)) == v")
     run.static_part()
     isa.quiet()
     from amoco.system.structs import StructFactory, UnionFactory
@@ -336,6 +338,7 @@ def check(run):
                 finds.setdefault("unpack-pack-raised|%s|%s" % (d.kind, type(x).__name__), {"format": amoco_fmt(d), "definitions": full_format(d), "psize": ps * 8, "data": data.hex(), "error": repr(x)[:200]})
         run.sample({"format": amoco_fmt(defs[0]), "kind": defs[0].kind}, 2)
     cnt_rows = variable_part(run, rng, finds, quick)
+    terminated_part(run, random.Random(run.seed * 1009 + 1616), finds, quick)
     for k, v in sorted(finds.items()):
         run.violation(k, "structure definition language: %s" % k, v)
     shards = [rows[i:i + 300] for i in range(0, len(rows), 300)]
@@ -454,6 +457,194 @@ def variable_part(run, rng, finds, quick):
         except Exception as x:
             finds.setdefault("variable-field-raised|%s|%s" % (kind, type(x).__name__), {"kind": kind, "error": repr(x)[:200]})
     return cnt_rows
+
+
+TERM_ELEMS = ["B", "b", "H", "h", "I", "i", "Q", "q", "c", "s"]
+TERM_SCALARS = ["B", "b", "H", "h", "I", "i", "Q", "q"]
+
+
+def _enc(t, order, v):
+    """reference encoding of one element / scalar, independent of the struct module"""
+    if t in "cs":
+        return bytes(v)
+    n = RAW[t][0]
+    return int(v).to_bytes(n, "little" if order == "<" else "big", signed=t.islower())
+
+
+def _rand_scalar(rng, t, nonzero=False):
+    n = RAW[t][0]
+    while True:
+        v = rng.getrandbits(8 * n)
+        if rng.random() < 0.25:
+            v &= 0xff << (8 * rng.randrange(n))          # a single non-zero byte: the byte order is all that matters
+        if t.islower():
+            v -= (1 << (8 * n)) if v >> (8 * n - 1) else 0
+        if v or not nonzero:
+            return v
+
+
+class TermDef:
+    """a packed structure with scalar fields and terminated variable-length fields ('T*~'), possibly with structures of
+    the same kind nested in it (single or as an array); byte order per field by marker, else by the order= keyword of the
+    definition, else little-endian"""
+
+    def __init__(self, rng, name, depth, pool):
+        self.name = name
+        self.kw = rng.choice([None, None, "<", ">", ">"])
+        self.fields = []      # (fname, kind, type, marker, count)  kind: 'scalar' | 'term' | 'struct'
+        nterm = 0
+        for k in range(rng.randrange(1, 6)):
+            fn = "g%d" % k
+            marker = rng.choice([None, None, "<", ">", ">"])
+            c = rng.random()
+            if c < 0.4 or (depth == 0 and nterm == 0 and k >= 2):
+                self.fields.append((fn, "term", rng.choice(TERM_ELEMS), marker, 0))
+                nterm += 1
+            elif c < 0.55 and pool and depth > 0:
+                self.fields.append((fn, "struct", rng.choice(pool), None, 0 if rng.random() < 0.6 else rng.randrange(2, 4)))
+            else:
+                self.fields.append((fn, "scalar", rng.choice(TERM_SCALARS), marker, 0))
+
+    def order_of(self, marker):
+        return marker or self.kw or "<"
+
+    def fmt(self):
+        lines = []
+        for fn, kind, t, marker, cnt in self.fields:
+            if kind == "struct":
+                lines.append("%s%s : %s" % (t.name, "*%d" % cnt if cnt else "", fn))
+            else:
+                lines.append("%s%s :%s %s" % (t, "*~" if kind == "term" else "", marker or "", fn))
+        return "\n".join(lines)
+
+    def definitions(self, acc=None):
+        acc = [] if acc is None else acc
+        for fn, kind, t, marker, cnt in self.fields:
+            if kind == "struct":
+                t.definitions(acc)
+        if not any(x["name"] == self.name for x in acc):
+            acc.append({"name": self.name, "format": self.fmt(), "packed": True, "order": self.kw})
+        return acc
+
+    def rand_value(self, rng):
+        val = {}
+        for fn, kind, t, marker, cnt in self.fields:
+            if kind == "scalar":
+                val[fn] = _rand_scalar(rng, t)
+            elif kind == "struct":
+                val[fn] = [t.rand_value(rng) for _ in range(cnt)] if cnt else t.rand_value(rng)
+            else:
+                n = rng.choice([0, 1, 1, 2, 3, 5, 9])
+                if t in "cs":
+                    val[fn] = bytes(rng.randrange(1, 256) for _ in range(n)) + b"\0"
+                else:
+                    val[fn] = [_rand_scalar(rng, t, nonzero=True) for _ in range(n)] + [0]
+        return val
+
+    def encode(self, val):
+        out = b""
+        for fn, kind, t, marker, cnt in self.fields:
+            v = val[fn]
+            if kind == "scalar":
+                out += _enc(t, self.order_of(marker), v)
+            elif kind == "struct":
+                out += b"".join(t.encode(x) for x in v) if cnt else t.encode(v)
+            elif t in "cs":
+                out += v
+            else:
+                out += b"".join(_enc(t, self.order_of(marker), x) for x in v)
+        return out
+
+    def observed(self, obj):
+        """the values held by an instance, in the shape of rand_value"""
+        val = {}
+        for fn, kind, t, marker, cnt in self.fields:
+            v = obj[fn]
+            if kind == "struct":
+                val[fn] = [t.observed(x) for x in v] if cnt else t.observed(v)
+            elif kind == "term" and t not in "cs":
+                val[fn] = list(v)
+            else:
+                val[fn] = v
+        return val
+
+    def instance(self, classes, val):
+        """a fresh instance holding the given values (nothing unpacked)"""
+        obj = classes[self.name]()
+        for fn, kind, t, marker, cnt in self.fields:
+            v = val[fn]
+            if kind == "struct":
+                obj[fn] = [t.instance(classes, x) for x in v] if cnt else t.instance(classes, v)
+            else:
+                obj[fn] = v
+        return obj
+
+    def has(self, pred):
+        return any(pred(f) or (f[1] == "struct" and f[2].has(pred)) for f in self.fields)
+
+
+def terminated_part(run, rng, finds, quick):
+    """terminated variable-length fields of every element type, in both byte orders (marker and order= keyword), standalone
+    and nested (single / array / two levels) in packed definitions: unpack reads the reference encoding, the instance
+    length is the encoded length, pack(unpack(b)) == b and unpack(pack(v)) == v"""
+    from amoco.system.structs import StructFactory
+    pool, classes = [], {}
+    combos = [(t, o, how) for t in TERM_ELEMS for o in "<>" for how in ("marker", "kwarg")]
+    for it in range(400 if quick else 5000):
+        _counter[0] += 1
+        name = "T%d_%d" % (os.getpid() % 1000, _counter[0])
+        depth = rng.choice([0, 0, 1, 1, 2]) if pool else 0
+        d = TermDef(rng, name, depth, [x for x in pool if x.depth < depth])
+        d.depth = depth
+        if it < len(combos) and depth == 0:
+            # every (element type, byte order, way of giving it) at least once
+            t, o, how = combos[it]
+            d.kw = o if how == "kwarg" else rng.choice([None, "<" if o == ">" else ">"])
+            d.fields[rng.randrange(len(d.fields))] = ("gt", "term", t, o if how == "marker" else None, 0)
+        if not d.has(lambda f: f[1] == "term"):
+            continue
+        rep = {"definitions": d.definitions()}
+        try:
+            classes[name] = StructFactory(name, d.fmt(), packed=True, **({"order": d.kw} if d.kw else {}))
+        except Exception as x:
+            finds.setdefault("terminated-elements-raised|definition|" + type(x).__name__, dict(rep, error=repr(x)[:200]))
+            continue
+        if len(pool) < 60:
+            pool.append(d)
+        where = "nested" if depth else "standalone"
+        for _ in range(3):
+            val = d.rand_value(rng)
+            ref = d.encode(val)
+            data = ref + bytes(rng.randrange(1, 256) for _ in range(9))
+            run.count(("term", d.fmt(), d.kw, data), nontrivial=True)
+            rep = {"definitions": d.definitions(), "data": data.hex(), "values": repr(val)[:600], "encoded_length": len(ref)}
+            stage = "unpack"
+            try:
+                o = classes[name]().unpack(data)
+                got = d.observed(o)
+                if got != val:
+                    finds.setdefault("terminated-elements|unpack|" + where, dict(rep, unpacked=repr(got)[:600]))
+                    continue
+                if len(o) != len(ref):
+                    finds.setdefault("terminated-elements|length|" + where, dict(rep, len=len(o)))
+                    continue
+                stage = "pack-of-unpack"
+                back = o.pack()
+                if back != ref:
+                    finds.setdefault("terminated-elements|pack-of-unpack|" + where, dict(rep, packed=back.hex()))
+                    continue
+                stage = "pack-of-values"
+                enc = d.instance(classes, val).pack()
+                if enc != ref:
+                    finds.setdefault("terminated-elements|pack-of-values|" + where, dict(rep, packed=enc.hex()))
+                    continue
+                stage = "unpack-of-pack"
+                again = d.observed(classes[name]().unpack(enc + b"\x01\x02"))
+                if again != val:
+                    finds.setdefault("terminated-elements|unpack-of-pack|" + where, dict(rep, unpacked=repr(again)[:600]))
+            except Exception as x:
+                finds.setdefault("terminated-elements-raised|%s|%s|%s" % (stage, where, type(x).__name__), dict(rep, error=repr(x)[:200]))
+    run.cov["terminated_definitions"] = len(classes)
 
 
 def ref_leb(n, signed):
